@@ -206,7 +206,58 @@ def job_consumers(ctx, jr):
     jr.discharged += ok_n; jr.blocks += 1; jr.merges += 1
 
 
+def ref_condition(toks):
+    """and-of-ors value of a token list by the statement of the property; None when it is not a well-formed statement"""
+    def parse(i, depth):
+        # returns (value, next index) of a statement up to the matching ')' / the end
+        total = True; clause = None; last = 'start'
+        while i < len(toks):
+            t = toks[i]
+            if t == ')':
+                if depth == 0 or last == 'op': return None
+                break
+            if t == '(':
+                if last == 'atom': return None
+                r = parse(i + 1, depth + 1)
+                if r is None or r[1] >= len(toks) or toks[r[1]] != ')': return None
+                clause = (clause or False) or r[0] if last == 'or' else r[0]; last_ = 'atom'; i = r[1] + 1; last = last_; continue
+            if t in ('and', 'or'):
+                if last != 'atom': return None
+                if t == 'and': total = total and clause; clause = None
+                last = 'or' if t == 'or' else 'op'
+                if t == 'and': last = 'op'
+                i += 1; continue
+            if last == 'atom': return None
+            b = t.lower() not in ('', '0', 'false', 'no')
+            clause = ((clause or False) or b) if last == 'or' else b
+            last = 'atom'; i += 1
+        if last in ('op', 'or'): return None
+        return ((total and clause) if last == 'atom' else False, i)
+    r = parse(0, 0)
+    if r is None or r[1] != len(toks): return None
+    return bool(r[0])
+
+
 def replayer(v):
+    if v.get('kind') == 'lemma':
+        # confirmation of a failed per-token lemma: every well-formed statement of <= 6 tokens over ( ) and or true false, and the
+        # tokens of the counterexample, evaluated natively through `not` and by the reference reading of the property
+        import itertools
+        cands = [v['tokens']] if v.get('tokens') else []
+        for n_ in range(1, 7): cands += [list(x) for x in itertools.product(['(', ')', 'and', 'or', 'true', 'false'], repeat=n_)]
+        for n_atoms in (4, 5):      # flat statements of 7 and 9 tokens
+            for k_, (ats, ops) in enumerate(itertools.product(itertools.product(['true', 'false'], repeat=n_atoms), itertools.product(['and', 'or'], repeat=n_atoms - 1))):
+                if n_atoms == 5 and k_ % 4: continue
+                cands.append([x for pair in zip(ats, ops + ('',)) for x in pair][:-1])
+        cands += [['(', '(', 'false', ')', 'or', 'true', ')', 'and', '(', 'true', ')'], ['(', ')', 'or', 'x'], ['x', 'and', '(', 'no', 'or', '(', 'Y', ')', ')'], ['(', '(', '(', '0', ')', ')', ')']]
+        tested = 0
+        for toks in cands:
+            exp = ref_condition(toks)
+            if exp is None: continue
+            tested += 1
+            got = replayer(dict(kind='c06', tokens=toks, expected=exp))
+            if got[0]: v['tokens_native'] = toks; return (True, 'statement %r: %s' % (toks, got[1]))
+        return (False, '%d well-formed statements evaluate as documented natively' % tested)
     toks = v['tokens']
     vars_ = {'t%d' % i: t for i, t in enumerate(toks)}
     # pass every token through a variable so that no re-quoting is involved; empty tokens stay empty arguments
@@ -227,16 +278,155 @@ def main(tier, seed):
         chk.job(job_slice, 'not:7tok', n=7, atom_cap=3, D=3, via_not=True)
         chk.job(job_truthiness, 'is_true', cap=6)
         chk.job(job_consumers, 'consumers')
-        chk.bounds = dict(tokens='<= 8 (depth <= 3), atoms <= 5 chars', not_command='<= 7 tokens, atoms <= 3 chars', truthiness='values <= 6 chars')
+        chk.job(job_condition_step, 'step:condition lemmas', N=8, atom_cap=5)
+        chk.bounds = dict(step_lemmas='per-token lemmas from an arbitrary evaluator state, statements of <= 8 symbolic tokens, any position, group depth counter <= 1000 (DESIGN.md 8.8)', tokens='<= 8 (depth <= 3), atoms <= 5 chars', not_command='<= 7 tokens, atoms <= 3 chars', truthiness='values <= 6 chars')
     else:
         chk.job(job_slice, 'slice:10tok', n=10, atom_cap=4, D=3)
         chk.job(job_slice, 'slice:11tok,short atoms', n=11, atom_cap=2, D=3)
         chk.job(job_slice, 'not:10tok', n=10, atom_cap=3, D=3, via_not=True)
         chk.job(job_truthiness, 'is_true', cap=10)
         chk.job(job_consumers, 'consumers')
-        chk.bounds = dict(tokens='<= 10 (depth <= 3, atoms <= 4) and <= 11 (atoms <= 2)', not_command='<= 10 tokens', truthiness='values <= 10 chars')
+        chk.job(job_condition_step, 'step:condition lemmas', N=16, atom_cap=6)
+        chk.bounds = dict(step_lemmas='per-token lemmas from an arbitrary evaluator state, statements of <= 16 symbolic tokens, any position, group depth counter <= 1000 (DESIGN.md 8.8)', tokens='<= 10 (depth <= 3, atoms <= 4) and <= 11 (atoms <= 2)', not_command='<= 10 tokens', truthiness='values <= 10 chars')
     chk.assumptions = ['atom alphabet: ASCII + U+3042, U+20AC, U+1F600 (to_lowercase is modelled exactly only there; proof obligation inside the model)',
                        'atoms are not the words ( ) and or', 'if/elseif/while: only the call to eval_condition is checked structurally here; their runs are C04',
                        'the first token is not a registered command (command conditions are C09)']
     results = chk.run()
     return chk.finish(results, 'every obligation is a solver query over all well-formed token sequences within the bounds')
+
+
+# ---------------------------------------------------------------------- step lemmas: statements of any length and nesting depth
+FT_NONE, FT_AND, FT_OR, FT_VALUE = 0, 1, 2, 3
+
+
+def job_condition_step(ctx, jr, N, atom_cap):
+    """One iteration of the token loop of eval_condition_for_slice from an arbitrary loop-head state of each phase, the recursive
+    evaluation of a closed group replaced by an arbitrary result:
+      START nothing read yet | AT(c) a value was read, c = disjunction of the current clause | AND after 'and' | OR(c) after 'or'
+      GROUP(k) inside an unclosed group at depth k (tokens are only counted), on top of START / AND / OR(c)."""
+    from mirsym import induct
+    jr.bounds = dict(tokens=N, position='any', atom_chars=atom_cap, group_depth_counter='1..1000', group_value='arbitrary result of the recursive evaluation',
+                     claim='per-token lemmas; composition over a statement of any length and depth is the induction of DESIGN.md 8.8')
+    OB = 'std::option::Option'
+    def ob(present, b): return E(OB, zite(present, 1, 0) if is_sym(present) else (1 if present else 0), {0: [], 1: [b]})
+    lem = 0
+    for phase in ('BASE', 'FLAT', 'GROUP', 'END'):
+        e = ctx.engine(unwind=3, max_rec=2); t0 = time.time()
+        count, kinds, atoms, toks, cons = make_tokens(e, N, atom_cap)
+        e.assume(cons)
+        if phase != 'BASE': e.assume(count >= 1)
+        argv = V(count, toks)
+        gk = e.fresh_int('group.result', 0, 2)       # 0 Ok(false) 1 Ok(true) 2 Err
+        rec = []
+
+        def h_rec(eng, st1, a, callee):
+            sl = eng.deref(st1, a[0]) if isinstance(a[0], (P, PV)) else a[0]
+            rec.append((st1.g, sl))
+            return E('std::result::Result', zite(gk == 2, 1, 0), {0: [zeq(gk, 1)], 1: [mk_str('inner error')]})
+        e.hooks['utils::condition::eval_condition_for_slice'] = h_rec
+        obs = []
+        if phase == 'BASE':
+            # the empty statement / empty group, and the state the loop starts from
+            e2 = e
+            rs, rv = e.run('sdk', 'utils::condition::eval_condition_for_slice', [V(0, [])], State(True, {}))
+            obs.append((rs.g, zand(zeq(rv.d, 0), zeq(rv.p[0][0], False)) if 0 in rv.p else False, 'an empty statement (or empty group) is falsy'))
+            e.assume(count >= 1)
+            fr = induct.capture(e, 'sdk', 'utils::condition::eval_condition_for_slice', [argv], State(True, {}))
+            g = lambda n_: fr.get(fr.st, n_)
+            obs.append((fr.st.g, zand(zeq(g('searching_block_end'), False), zeq(g('counter'), 0), zeq(g('index'), 0), zeq(g('total_evaluated').d, 0), zeq(g('partial_evaluated').d, 0),
+                                      zeq(g('found_token').d, FT_NONE), zeq(g('iter').f[1], 0)), 'the loop starts in phase START at token 0'))
+            back = None
+        else:
+            fr = induct.capture(e, 'sdk', 'utils::condition::eval_condition_for_slice', [argv], State(True, {}))
+            it0 = fr.get(fr.st, 'iter'); ft0 = fr.get(fr.st, 'found_token')
+            p = e.fresh_int('p', 0, N); e.assume(p <= count)
+            ph = e.fresh_int('outer', 0, 3)          # FoundToken of the enclosing level: None / And / Or / Value
+            c = e.fresh_bool('clause'); tsome = e.fresh_bool('total.some')
+            # representation invariant of the phases
+            e.assume(z3.Implies(ph == FT_NONE, z3.Not(tsome)))         # nothing read: no total yet
+            e.assume(z3.Implies(ph == FT_AND, tsome))                  # after 'and' the total exists (and is true, or the loop had returned)
+            partial = ob(zor(zeq(ph, FT_OR), zeq(ph, FT_VALUE)), c)
+            total = ob(tsome, True)
+            k = e.fresh_int('depth', 1, 1000); sb = e.fresh_int('start_block', 0, N)
+            in_group = phase == 'GROUP'
+            if in_group: e.assume(zand(sb <= p, ph != FT_VALUE))
+            if phase == 'END': e.assume(zeq(p, count))
+            else: e.assume(p < count)
+            rec.clear()
+            st1 = fr.state(True, searching_block_end=in_group, start_block=sb if in_group else 0, counter=k if in_group else 0, index=p,
+                           total_evaluated=total, partial_evaluated=partial, found_token=E(ft0.ty, ph, ft0.p), iter=T([it0.f[0], p] + list(it0.f[2:]), it0.ty))
+            exits, back = fr.step(st1)
+            goes_on = back.g if back is not None else False
+            rets = fr.returns(exits)
+            kind = sel(kinds, p, ATOM); b = truthy(sel_str(atoms, p))
+            isA, isL, isR, isAnd, isOr = zeq(kind, ATOM), zeq(kind, LP), zeq(kind, RP), zeq(kind, AND), zeq(kind, OR)
+
+            def at_head(st_, ph2, c2, tsome2, grp=None):
+                g = lambda n_: fr.get(st_, n_)
+                cs = [zeq(g('index'), p + 1), zeq(g('iter').f[1], p + 1), zeq(g('found_token').d, ph2), zeq(g('total_evaluated').d, zite(tsome2, 1, 0)),
+                      zimp(tsome2, g('total_evaluated').p[1][0] if 1 in g('total_evaluated').p else False)]
+                if c2 is None: cs.append(zeq(g('partial_evaluated').d, 0))
+                else: cs.append(zand(zeq(g('partial_evaluated').d, 1), zeq(g('partial_evaluated').p[1][0], c2)) if 1 in g('partial_evaluated').p else False)
+                if grp is None: cs += [zeq(g('searching_block_end'), False), zeq(g('counter'), 0)]
+                else: cs += [zeq(g('searching_block_end'), True), zeq(g('counter'), grp[0]), zeq(g('start_block'), grp[1])]
+                return zand(*cs)
+            newc = zite(zeq(ph, FT_OR), zor(c, b), b)
+            if phase == 'FLAT':
+                opener = zor(zeq(ph, FT_NONE), zeq(ph, FT_AND), zeq(ph, FT_OR))
+                # a value where a value may stand
+                cnd = zand(isA, opener); obs.append((cnd, goes_on, 'a value is read'))
+                if back is not None: obs.append((zand(back.g, cnd), at_head(back, FT_VALUE, newc, tsome), 'value: the clause becomes (clause or value) after or, the value otherwise; the total is untouched'))
+                # and
+                cnd = zand(isAnd, zeq(ph, FT_VALUE))
+                obs.append((zand(cnd, c), goes_on, 'and after a true clause: the statement goes on')); obs.append((zand(cnd, znot(c)), znot(goes_on), 'and after a false clause ends the evaluation'))
+                if back is not None: obs.append((zand(back.g, cnd), at_head(back, FT_AND, None, True), 'and: the finished clause is folded into the total, a new clause starts'))
+                for rs, rv in rets: obs.append((zand(rs.g, cnd, znot(c)), zand(zeq(rv.d, 0), zeq(rv.p[0][0], False)) if 0 in rv.p else False, 'a false clause makes the conjunction false'))
+                # or
+                cnd = zand(isOr, zeq(ph, FT_VALUE)); obs.append((cnd, goes_on, 'or after a value: the clause goes on'))
+                if back is not None: obs.append((zand(back.g, cnd), at_head(back, FT_OR, c, tsome), 'or: clause and total are kept'))
+                # opening a group where a value may stand
+                cnd = zand(isL, opener); obs.append((cnd, goes_on, 'a group is opened'))
+                if back is not None:
+                    obs.append((zand(back.g, cnd), zand(zeq(fr.get(back, 'searching_block_end'), True), zeq(fr.get(back, 'counter'), 1), zeq(fr.get(back, 'start_block'), p + 1),
+                                                        zeq(fr.get(back, 'found_token').d, ph), deep_eq(fr.get(back, 'partial_evaluated'), partial), deep_eq(fr.get(back, 'total_evaluated'), total),
+                                                        zeq(fr.get(back, 'index'), p + 1), zeq(fr.get(back, 'iter').f[1], p + 1)),
+                                'opening a group: depth 1, the group starts behind the parenthesis, the enclosing level is kept as it is'))
+            elif phase == 'GROUP':
+                closes = zand(isR, zeq(k, 1))
+                obs.append((znot(closes), goes_on, 'inside a group tokens are only counted'))
+                if back is not None:
+                    obs.append((zand(back.g, znot(closes)), zand(zeq(fr.get(back, 'searching_block_end'), True), zeq(fr.get(back, 'counter'), zite(isL, k + 1, zite(isR, k - 1, k))), zeq(fr.get(back, 'start_block'), sb),
+                                                                  zeq(fr.get(back, 'found_token').d, ph), deep_eq(fr.get(back, 'partial_evaluated'), partial), deep_eq(fr.get(back, 'total_evaluated'), total),
+                                                                  zeq(fr.get(back, 'index'), p + 1), zeq(fr.get(back, 'iter').f[1], p + 1)),
+                                'inside a group: the depth follows the parentheses, everything else is kept'))
+                    gval = zeq(gk, 1)
+                    obs.append((zand(back.g, closes), at_head(back, FT_VALUE, zite(zeq(ph, FT_OR), zor(c, gval), gval), tsome), 'a closed group counts exactly like a value with the value of its content'))
+                obs.append((zand(closes, gk != 2), goes_on, 'after a group the statement goes on')); obs.append((zand(closes, gk == 2), znot(goes_on), 'an error inside a group ends the evaluation'))
+                for g_, sl in rec:
+                    exp = [zeq(sl.len, p - sb)] + [zimp(i < sl.len, str_eq(sl.it[i], sel_str(toks, sb + i))) for i in range(min(len(sl.it), N))]
+                    obs.append((g_, zand(closes, *exp), 'the content of the group - exactly the tokens between its parentheses - is evaluated by the same function'))
+                obs.append((closes, zor(*[g_ for g_, _ in rec]) if rec else False, 'a closed group is evaluated'))
+                for rs, rv in rets: obs.append((zand(rs.g, closes, gk == 2), zeq(rv.d, 1), 'an error inside a group is an error of the statement'))
+            else:
+                obs.append((True, znot(goes_on), 'the loop ends with the tokens'))
+                for rs, rv in rets:
+                    okv = rv.p[0][0] if 0 in rv.p else None
+                    obs.append((zand(rs.g, zeq(ph, FT_VALUE)), False if okv is None else zand(zeq(rv.d, 0), zeq(okv, c)), 'the value of the statement is the last clause (all earlier clauses were true)'))
+                    obs.append((zand(rs.g, zeq(ph, FT_NONE)), False if okv is None else zand(zeq(rv.d, 0), zeq(okv, False)), 'nothing read: falsy'))
+        for g_, cnd, msg in obs: e.obligations.append(Obligation(g_, cnd, 'C06 condition lemma (%s): %s' % (phase, msg), 'assert', 'oracle'))
+        lem += len(obs)
+        jr.symex_time += time.time() - t0
+
+        def extract(m, o=None, phase=phase):
+            kk = solve.model_int(m, count)
+            return dict(kind='lemma', phase=phase, tokens=[solve.model_str(m, toks[i]) for i in range(kk)])
+        res = discharge_known(e, jr, PID, {}, extract)
+        if phase in ('FLAT', 'GROUP'): witness(jr, e, 'condition lemma %s: the iteration continues' % phase, back.g if back is not None else False, extract)
+        H.finish_job(jr, e, res)
+    jr.samples.append({'lemmas': lem})
+
+
+def sel_str(items, idx):
+    r = items[-1]
+    for i in range(len(items) - 2, -1, -1): r = merge(zeq(idx, i), items[i], r)
+    return r
